@@ -583,6 +583,7 @@ func (p *Parser) parseStmt(allowDeclaration bool) (stmt IStmt) {
 				if !p.consume("try-catch statement", CloseParenToken) {
 					return
 				}
+				p.scope.NumArgUses = uint16(len(p.scope.Undeclared)) // ensures different b's in `catch({a=b}){let b}`
 			}
 			catch.List = p.parseStmtList("try-catch statement")
 			p.exitScope(parent)
